@@ -415,7 +415,7 @@ ocp.set_der(v, a)
         self.add_constraints_before(stage, opti)
         assert "integrator" not in stage._constraints
 
-        self.opti_advanced = self.opti.advanced
+        self.opti_advanced = opti.advanced
         self.add_constraints_inf(stage, opti)
         self.add_constraints_noninf(stage, opti)
     
@@ -495,16 +495,16 @@ ocp.set_der(v, a)
                 results_min = fm_min_group(results_split[0])
                 results_end = results_split[1]
                 if not lb_inf:
-                    self.opti.subject_to(self.eval(stage, lb <= results_min))
-                    self.opti.subject_to(self.eval(stage, lb <= results_end))
+                    opti.subject_to(self.eval(stage, lb <= results_min))
+                    opti.subject_to(self.eval(stage, lb <= results_end))
                 if not ub_inf:
-                    self.opti.subject_to(self.eval(stage, results_max <= ub))
-                    self.opti.subject_to(self.eval(stage, results_end <= ub))
+                    opti.subject_to(self.eval(stage, results_max <= ub))
+                    opti.subject_to(self.eval(stage, results_end <= ub))
             else:
                 n = results.shape[1]
                 lb = ca.repmat(lb,1,n)
                 ub = ca.repmat(ub,1,n)
-                self.opti.subject_to( self.eval(   stage, ca.vec(lb) <= (ca.vec(results) <= ca.vec(ub))   ) )
+                opti.subject_to( self.eval(   stage, ca.vec(lb) <= (ca.vec(results) <= ca.vec(ub))   ) )
 
     def add_constraints_inf(self, stage, opti):
 
@@ -568,13 +568,13 @@ ocp.set_der(v, a)
                 C = ca.vcat([coeffs_epxr_block[e] for e in Sc])
 
                 if Sr:
-                    self.opti.subject_to(self.eval(stage,lb[Sr] - b[Sr] <= (Ablock @ C <= ub[Sr]-b[Sr])))
+                    opti.subject_to(self.eval(stage,lb[Sr] - b[Sr] <= (Ablock @ C <= ub[Sr]-b[Sr])))
         else:
             deps = ca.sum1(Asignal).T.row()
             vars = vvcat(self.signals.keys())[deps]
             Jmul = Asignal[:,deps]
             s = self.signals[vars]
-            self.opti.subject_to(self.eval(stage,lb - b <= (Jmul @ s.coeff <= ub-b)))
+            opti.subject_to(self.eval(stage,lb - b <= (Jmul @ s.coeff <= ub-b)))
 
     def set_initial(self, stage, master, initial):
         opti = master.opti if hasattr(master, 'opti') else master
